@@ -383,6 +383,9 @@ Record gst := {
   ev : Z -> Z;                 (* dte_value of the sync context of each thread *)
   slp : Z -> sleepst;          (* kernel side of futex_wait per thread *)
   (* ghost *)
+  token : option (option Z);   (* who holds the lane's single "enqueued" token: None = nobody (ENQUEUED clear),
+                                  Some None = the lane sits in the root queue, Some (Some t) = thread t (about to push
+                                  it, just popped it, or draining) *)
   holder : option Z;           (* who owns the drain lock *)
   cur : option entry;          (* the item the lock holder has popped and not yet handed over / started *)
   ph : Z -> phase;
@@ -397,7 +400,7 @@ Record gst := {
 Definition init_word : Z := Z.shiftl (4096 - 1) 41 + DISPATCH_QUEUE_ROLE_BASE_ANON.
 Definition init_state : gst :=
   {| st := init_word; lst := []; tailz := None; rootq := 0; pcs := fun _ => Idle; ev := fun _ => 0; slp := fun _ => Awake;
-     holder := None; cur := None; ph := fun _ => PhNone; ist := fun _ => IPend; runs := fun _ => 0;
+     token := None; holder := None; cur := None; ph := fun _ => PhNone; ist := fun _ => IPend; runs := fun _ => 0;
      remote := fun _ => false; running := None; overlap := false; early_ret := false |}.
 
 Definition tail_value (s : gst) : Z :=
@@ -417,51 +420,55 @@ Definition ist_fin (i : istat) : bool := match i with IFin => true | _ => false 
 
 (* field updates *)
 Definition set_st (s : gst) (v : Z) : gst :=
-  {| st := v; lst := lst s; tailz := tailz s; rootq := rootq s; pcs := pcs s; ev := ev s; slp := slp s; holder := holder s;
+  {| st := v; lst := lst s; tailz := tailz s; rootq := rootq s; pcs := pcs s; ev := ev s; slp := slp s; token := token s; holder := holder s;
      cur := cur s; ph := ph s; ist := ist s; runs := runs s; remote := remote s; running := running s;
      overlap := overlap s; early_ret := early_ret s |}.
 Definition set_list (s : gst) (l : list entry) (tz : option Z) : gst :=
-  {| st := st s; lst := l; tailz := tz; rootq := rootq s; pcs := pcs s; ev := ev s; slp := slp s; holder := holder s;
+  {| st := st s; lst := l; tailz := tz; rootq := rootq s; pcs := pcs s; ev := ev s; slp := slp s; token := token s; holder := holder s;
      cur := cur s; ph := ph s; ist := ist s; runs := runs s; remote := remote s; running := running s;
      overlap := overlap s; early_ret := early_ret s |}.
 Definition set_rootq (s : gst) (n : Z) : gst :=
-  {| st := st s; lst := lst s; tailz := tailz s; rootq := n; pcs := pcs s; ev := ev s; slp := slp s; holder := holder s;
+  {| st := st s; lst := lst s; tailz := tailz s; rootq := n; pcs := pcs s; ev := ev s; slp := slp s; token := token s; holder := holder s;
      cur := cur s; ph := ph s; ist := ist s; runs := runs s; remote := remote s; running := running s;
      overlap := overlap s; early_ret := early_ret s |}.
 Definition set_pc (s : gst) (t : Z) (p : pc) : gst :=
-  {| st := st s; lst := lst s; tailz := tailz s; rootq := rootq s; pcs := upd (pcs s) t p; ev := ev s; slp := slp s;
+  {| st := st s; lst := lst s; tailz := tailz s; rootq := rootq s; pcs := upd (pcs s) t p; ev := ev s; slp := slp s; token := token s;
      holder := holder s; cur := cur s; ph := ph s; ist := ist s; runs := runs s; remote := remote s; running := running s;
      overlap := overlap s; early_ret := early_ret s |}.
 Definition set_ev (s : gst) (f : Z -> Z) : gst :=
-  {| st := st s; lst := lst s; tailz := tailz s; rootq := rootq s; pcs := pcs s; ev := f; slp := slp s; holder := holder s;
+  {| st := st s; lst := lst s; tailz := tailz s; rootq := rootq s; pcs := pcs s; ev := f; slp := slp s; token := token s; holder := holder s;
      cur := cur s; ph := ph s; ist := ist s; runs := runs s; remote := remote s; running := running s;
      overlap := overlap s; early_ret := early_ret s |}.
 Definition set_slp (s : gst) (f : Z -> sleepst) : gst :=
-  {| st := st s; lst := lst s; tailz := tailz s; rootq := rootq s; pcs := pcs s; ev := ev s; slp := f; holder := holder s;
+  {| st := st s; lst := lst s; tailz := tailz s; rootq := rootq s; pcs := pcs s; ev := ev s; slp := f; token := token s; holder := holder s;
      cur := cur s; ph := ph s; ist := ist s; runs := runs s; remote := remote s; running := running s;
      overlap := overlap s; early_ret := early_ret s |}.
 Definition set_holder (s : gst) (h : option Z) : gst :=
-  {| st := st s; lst := lst s; tailz := tailz s; rootq := rootq s; pcs := pcs s; ev := ev s; slp := slp s; holder := h;
+  {| st := st s; lst := lst s; tailz := tailz s; rootq := rootq s; pcs := pcs s; ev := ev s; slp := slp s; token := token s; holder := h;
      cur := cur s; ph := ph s; ist := ist s; runs := runs s; remote := remote s; running := running s;
      overlap := overlap s; early_ret := early_ret s |}.
+Definition set_token (s : gst) (k : option (option Z)) : gst :=
+  {| st := st s; lst := lst s; tailz := tailz s; rootq := rootq s; pcs := pcs s; ev := ev s; slp := slp s; token := k;
+     holder := holder s; cur := cur s; ph := ph s; ist := ist s; runs := runs s; remote := remote s; running := running s;
+     overlap := overlap s; early_ret := early_ret s |}.
 Definition set_cur (s : gst) (c : option entry) : gst :=
-  {| st := st s; lst := lst s; tailz := tailz s; rootq := rootq s; pcs := pcs s; ev := ev s; slp := slp s; holder := holder s;
+  {| st := st s; lst := lst s; tailz := tailz s; rootq := rootq s; pcs := pcs s; ev := ev s; slp := slp s; token := token s; holder := holder s;
      cur := c; ph := ph s; ist := ist s; runs := runs s; remote := remote s; running := running s;
      overlap := overlap s; early_ret := early_ret s |}.
 Definition set_ph (s : gst) (f : Z -> phase) : gst :=
-  {| st := st s; lst := lst s; tailz := tailz s; rootq := rootq s; pcs := pcs s; ev := ev s; slp := slp s; holder := holder s;
+  {| st := st s; lst := lst s; tailz := tailz s; rootq := rootq s; pcs := pcs s; ev := ev s; slp := slp s; token := token s; holder := holder s;
      cur := cur s; ph := f; ist := ist s; runs := runs s; remote := remote s; running := running s;
      overlap := overlap s; early_ret := early_ret s |}.
 Definition set_item (s : gst) (fi : Z -> istat) (fr : Z -> Z) (fm : Z -> bool) : gst :=
-  {| st := st s; lst := lst s; tailz := tailz s; rootq := rootq s; pcs := pcs s; ev := ev s; slp := slp s; holder := holder s;
+  {| st := st s; lst := lst s; tailz := tailz s; rootq := rootq s; pcs := pcs s; ev := ev s; slp := slp s; token := token s; holder := holder s;
      cur := cur s; ph := ph s; ist := fi; runs := fr; remote := fm; running := running s;
      overlap := overlap s; early_ret := early_ret s |}.
 Definition set_running (s : gst) (r : option Z) (ov : bool) : gst :=
-  {| st := st s; lst := lst s; tailz := tailz s; rootq := rootq s; pcs := pcs s; ev := ev s; slp := slp s; holder := holder s;
+  {| st := st s; lst := lst s; tailz := tailz s; rootq := rootq s; pcs := pcs s; ev := ev s; slp := slp s; token := token s; holder := holder s;
      cur := cur s; ph := ph s; ist := ist s; runs := runs s; remote := remote s; running := r;
      overlap := ov; early_ret := early_ret s |}.
 Definition set_early (s : gst) (b : bool) : gst :=
-  {| st := st s; lst := lst s; tailz := tailz s; rootq := rootq s; pcs := pcs s; ev := ev s; slp := slp s; holder := holder s;
+  {| st := st s; lst := lst s; tailz := tailz s; rootq := rootq s; pcs := pcs s; ev := ev s; slp := slp s; token := token s; holder := holder s;
      cur := cur s; ph := ph s; ist := ist s; runs := runs s; remote := remote s; running := running s;
      overlap := overlap s; early_ret := b |}.
 
@@ -472,14 +479,16 @@ Definition apply_act (a : act) (s : gst) (t : Z) (e : event) : option gst :=
       Some (if sync then set_item s (upd (ist s) t IPend) (upd (runs s) t 0) (upd (remote s) t false) else s)
   | ARetS => Some (set_early s (early_ret s || negb (ist_fin (ist s t))))
   | ARetA => Some s
-  | AWorker => if 0 <? rootq s then Some (set_rootq s (rootq s - 1)) else None
-  | ARootPush => Some (set_rootq s (rootq s + 1))
+  | AWorker => if 0 <? rootq s then Some (set_token (set_rootq s (rootq s - 1)) (Some (Some t))) else None
+  | ARootPush => Some (set_token (set_rootq s (rootq s + 1)) (Some None))
   | ALoadQ => if ea e =? st s then Some s else None
   | ACasQ old q =>
       if ea e =? st s then
         if eok e =? 1 then
           if st s =? old then
-            let s1 := set_st s (eb e) in
+            let s0 := set_st s (eb e) in
+            let s1 := if changed old (eb e) ENQ
+                      then set_token s0 (if nz (Z.land (eb e) ENQ) then Some (Some t) else None) else s0 in
             match q with
             | QNone => Some s1
             | QAcq => Some (set_holder s1 (Some t))
